@@ -384,16 +384,10 @@ pub struct KnownFinding {
 }
 
 pub fn tracked_cols(a: usize) -> i64 {
-    // Key is column 0 of every archetype, Trk is column 14 (present from arity 15 on).
-    1 + if ARITIES[a] >= 15 { 1 } else { 0 }
+    TRACKED[a]
 }
 pub fn zed_cols(a: usize) -> i64 {
-    // Zed is column 1 (present from arity 2 on).
-    if ARITIES[a] >= 2 {
-        1
-    } else {
-        0
-    }
+    ZEDS[a]
 }
 
 impl Sys {
@@ -992,7 +986,7 @@ impl Sys {
             ensure!(pop.contains(&bits), "C07", "visited-unmatched", "ecs_iter_destroy! visited {:?} of an archetype the query does not match", bits);
             ensure!(seen.insert(bits), "C07", "visited-twice", "ecs_iter_destroy! visited uid {} twice", ent.uid);
             let exp = with_arch!(ent.arch as usize, A => <A as Arch>::expect(ent.uid, &ent.vals));
-            let ok = if row.full { row.dig == exp } else { row.dig.iter().zip(exp.iter()).all(|(x, y)| x == y) };
+            let ok = row_matches(ent.arch as usize, row, &exp);
             ensure!(ok, "C07", "visited-wrong-data", "ecs_iter_destroy! paired handle {:?} (uid {}) with foreign/garbled component data {:x?}", bits, ent.uid, row.dig);
             let d = decision[&ent.uid];
             if d == STEP_BREAK || d == STEP_BREAK_DESTROY {
@@ -1333,7 +1327,7 @@ impl Sys {
                     match row {
                         None => return vio!("C01", "live-handle-rejected:read", "{} with {} rejected live uid {}", READ_PATH_NAMES[rp as usize], KEY_KINDS[kind as usize], ent.uid),
                         Some(row) => {
-                            let okd = if row.full { row.dig == exp } else { row.dig[0] == exp[0] };
+                            let okd = row_matches(a, &row, &exp);
                             ensure_soft!(self.sc, okd, "C02", "read-wrong-values", "{} with {} returned {:x?} for uid {} (expected {:x?}) after {} operations", READ_PATH_NAMES[rp as usize], KEY_KINDS[kind as usize], row.dig, ent.uid, exp, self.step);
                             if let Some(rb) = row.bits {
                                 ensure_soft!(self.sc, rb == b, "C02", "read-wrong-handle", "{} reported handle {:?} for a lookup of {:?}", READ_PATH_NAMES[rp as usize], rb, b);
